@@ -95,7 +95,10 @@ def run(ctx, rep) -> None:
     for t in mtraces:
         if any(e['ev'] in ('flagseen', 'cancel') for e in t['events']):
             rep.nontrivial([[{k: x for k, x in e.items() if k != 't'} for e in t['events']], t['conf']])
-        if t['stall']:
+        if t['stall'] and t.get('livelock') and mv[t['id']]['verdict'] == 'accepted' and mv[t['id']].get('excuse') == 'F9':
+            rep.classified('F9', f'{t["id"]}: the operator never comes to rest: the deletion handlers are run again and again while the object is held for '
+                                 f'a daemon that is still stopping', payload={k: t[k] for k in ('id', 'scenario')})
+        elif t['stall']:
             rep.violation(f'{t["id"]}: event loop stalled', payload=t)
         elif mv[t['id']]['verdict'] != 'accepted':
             rep.violation(f'{t["id"]}: Trace_Handling: {mv[t["id"]]["verdict"]}', payload=t)
